@@ -228,6 +228,16 @@ func c19Case(t *testing.T, v *vCore, r *kit.Result, caseID string, n int, kinds 
 	// is asynchronous: wait (bounded, generous) until the token's record is gone before judging
 	// what must have died with it. Not reached = inconclusive, never a violation.
 	if uses >= n {
+		// Decided from storage, no waiting: the request that took the final use queues the token's
+		// revocation before it returns (the token's own lease is marked due). All requests have
+		// returned here, so the token's record is either gone already or its lease is gone / due.
+		if e, gerr := v.Core.tokenStore.idView(namespace.RootNamespace).Get(ctx, salted); gerr == nil && e != nil {
+			r.Count("final_use_revocation_queue_checks", 1)
+			if st := c19LeaseState(v, "auth/token/create/"+salted); st == "live" {
+				r.Violate("C19-final-use-did-not-queue-revocation", caseID, fmt.Sprintf("token with num_uses=%d: all %d uses are spent and every request has returned, but the token's record is present and its own lease is neither gone nor due: its revocation (with its leases and cubbyhole) was never queued", n, uses), wit)
+				return sched, true
+			}
+		}
 		gone := false
 		for i := 0; i < 3000 && !gone; i++ {
 			e, gerr := v.Core.tokenStore.idView(namespace.RootNamespace).Get(ctx, salted)
